@@ -113,14 +113,14 @@ def python_make(rng, sid, hist):
             it["lines"][0] = it["lines"][0].lstrip(BL)     # python entries start in column 0
             # python: a comment character after the value stays in the value
             if rng.random() < 0.3 and not it["quotes"] and it["value"]:
-                extra = b" " + bytes([rng.choice(comment)]) + g.text(0, 4, b'"')
+                extra = b" " + bytes([rng.choice(comment or b"#")]) + g.text(0, 4, b'"')
                 it["lines"][0] = it["lines"][0].rstrip(BL) + extra
                 it["value"] = (it["value"] + extra).rstrip(BL)
             cont = []
             for _ in range(rng.choice([0, 0, 1, 2, 3])):
                 while True:
                     t = g.text(1, 10).strip(BL)
-                    if t and t[:1] != b"[" and t[0] not in comment:
+                    if t and t[:1] != b"[" and t[0] not in (comment or b"#"):
                         break
                 cont.append(g.blanks(1, 3) + t + g.blanks(0, 2))
             it["lines"] = [it["lines"][0]] + cont
@@ -276,7 +276,7 @@ def histogram(s, lines):
                     ks.append("python_continuation")
                     if any(c in cl for c in m["delim"]):
                         ks.append("python_continuation_with_delimiter")
-                    if any(c in cl for c in m["comment"]):
+                    if any(c in cl for c in (m["comment"] or b"#")):
                         ks.append("python_continuation_with_comment_char")
         return ks
     return ["corpus"]
